@@ -454,9 +454,27 @@ def _in_place_methods(repo: str) -> t.List[str]:
                 for tg in tgts:
                     if isinstance(tg, (ast.Subscript, ast.Attribute)) and _u(tg) != "self.expression" and _rooted_at_own_expression(tg.value if isinstance(tg, ast.Subscript) else tg.value, aliases):
                         hit = True
+        # per-DataFrame state other than the tree: display names, pending hints, last_op, known uuids … written on `self`
+        if fn.name not in ("__init__", "_update_display_name_mapping"):
+            for n in ast.walk(fn):
+                if isinstance(n, (ast.Assign, ast.AugAssign, ast.AnnAssign)):
+                    tgts = n.targets if isinstance(n, ast.Assign) else [n.target]
+                    for tg in tgts:
+                        base = tg.value if isinstance(tg, ast.Subscript) else tg
+                        if isinstance(base, ast.Attribute) and _u(base).startswith("self.") and not _u(base).startswith("self.session"):
+                            hit = True
+                if isinstance(n, ast.Call) and isinstance(n.func, ast.Attribute):
+                    src = _u(n.func)
+                    if src == "self._update_display_name_mapping":
+                        hit = True
+                    if n.func.attr in STATE_MUTATORS and src.startswith("self.") and not src.startswith("self.session") and src.count(".") == 2:
+                        hit = True
         if hit:
             bad.append(fn.name)
     return sorted(set(bad))
+
+
+STATE_MUTATORS = {"append", "remove", "update", "pop", "clear", "extend", "add", "discard", "insert", "setdefault"}
 
 
 def gen_session_ids(repo: str) -> str:
@@ -519,7 +537,7 @@ def gen_session_ids(repo: str) -> str:
     out.append(f"def sessWriteFresh : Bool := {_b(acc['write'])}")
     out.append(f"def sessNaFresh : Bool := {_b(acc['na'])}")
     out.append(f"def sessStatFresh : Bool := {_b(acc['stat'])}")
-    out.append("/-- methods of BaseDataFrame that edit `self.expression` in place (builder call with copy=False, .set / .append / … on it) -/")
+    out.append("/-- methods of BaseDataFrame that write on their receiver: edit `self.expression` in place (builder call with copy=False, .set / .append / … on it), or write per-DataFrame state (display names via `self._update_display_name_mapping`, pending hints, last_op, … assigned / mutated on `self`) -/")
     out.append("def sessInPlaceBuilderMethods : List String := [" + ", ".join(lean_str(m) for m in inplace) + "]")
     out.append("")
     out.append("end Sqlframe.Gen")
